@@ -337,6 +337,19 @@ func run(c *harness.Ctx, i int) {
 			}
 		case "sftp":
 			os.Setenv("CASYNC_SSH_PATH", shim)
+			os.Unsetenv("SHIM_SFTP_FAULT")
+			flog := filepath.Join(dir, "sftp-faults.log")
+			if rng.Intn(3) == 0 {
+				// the server refuses to list one of the directories: prune cannot know what is in there
+				os.Setenv("SHIM_SFTP_FAULT", fmt.Sprintf("list@%d", 2+rng.Intn(8)))
+				os.Setenv("SHIM_SFTP_FAULT_LOG", flog)
+				defer os.Unsetenv("SHIM_SFTP_FAULT")
+			}
+			defer func() {
+				if fl, _ := os.ReadFile(flog); len(fl) > 0 {
+					c.Count("sftp_listings_refused", 1)
+				}
+			}()
 			u, _ := url.Parse("sftp://localhost" + b.dir)
 			s, e := desync.NewSFTPStore(u, opt)
 			if e != nil {
@@ -345,6 +358,9 @@ func run(c *harness.Ctx, i int) {
 			}
 			err = s.Prune(context.Background(), keep)
 			s.Close()
+			if fl, _ := os.ReadFile(flog); len(fl) > 0 {
+				refKind += "+refused-listing"
+			}
 		}
 		after := b.list()
 		removedSomething := false
@@ -386,7 +402,7 @@ func run(c *harness.Ctx, i int) {
 			// An error is not a violation: the statement only constrains what a prune deletes and what is gone when
 			// it reports success (chunk-named files in wrong directories make LocalStore/SFTP prune stop with ChunkMissing).
 			c.Count("prune_errors", 1)
-			if !cats["misplaced"] && !strings.Contains(refKind, "refused-deletes") {
+			if !cats["misplaced"] && !strings.Contains(refKind, "refused-") {
 				c.Violation("prune-failed:"+kind, "prune failed on a store without misplaced files: %v", err)
 				return
 			}
